@@ -134,11 +134,11 @@ def visit_rule(chk, db):
         for x in astx.all_exprs(f):
             if x.get("k") == "bin" and x["op"] == "==":
                 for s, o in ((x["l"], x["r"]), (x["r"], x["l"])):
-                    s0 = astx.strip_casts(s)
-                    if s0 is not None and s0.get("k") == "call" and astx.callee(s0)[0] == "index":
-                        o0 = astx.strip_casts(o)
-                        if o0 is not None and o0.get("k") == "ref" and o0.get("d") == "nttp":
-                            cmp_packs.add(o0["n"])
+                    has_index = any(y.get("k") == "call" and astx.callee(y)[0] == "index" for y in astx.walk_expr(s))
+                    if has_index:
+                        for y in astx.walk_expr(o):
+                            if y.get("k") == "ref" and y.get("d") == "nttp":
+                                cmp_packs.add(y["n"])
             if x.get("k") in ("ref", "mem") and x.get("n") in ("get", "unchecked_get", "index_v") and x.get("targs"):
                 for nm in re.findall(r"[A-Za-z_]\w*", x["targs"]):
                     get_packs.add(nm)
@@ -152,6 +152,8 @@ def visit_rule(chk, db):
             chk.violation("VISIT", astx.sig(f), "index-pack-mismatch", "%s: index() is compared with %s but the invoked branch uses get<%s>" % (
                 astx.loc(f), sorted(cmp_packs), sorted(get_packs)), {"where": astx.loc(f)})
     chk.extra["visit_dispatch_functions"] = n
+    if n < 1:
+        chk.analysis_broken("VISIT: the index dispatcher of etl::visit was not recognised")
 
 
 def run(chk, tier):
